@@ -202,6 +202,18 @@ def run(prog, rep, tier):
                     p.split("::")[-1], sorted(cl)))
     rep.floor(R24, 10)
 
+    # ------------------------------------------------------------ R2.5 (lifted from C13 R13.7)
+    R25 = rep.rule("R2.5", "pieces of a line printed around the datetime are contiguous (lifted from C13 R13.7)")
+    import slices as _sl
+    for p in sorted(prog.facts.bodies):
+        if not p.startswith(c13.PR + "print_sysline") or "{closure" in p:
+            continue
+        for lines_, problems in _sl.partition_chains(prog.body(p)):
+            rep.examined(R25, "%s|chain@%s" % (p, len(lines_)), sample={"variant": p.split("::")[-1], "pieces_at_lines": lines_, "problems": problems})
+            if problems:
+                rep.violation(R25, "%s|pieces|%d" % (p, len(lines_)), "%s: %s" % (p.split("::")[-1], problems[0]))
+    rep.floor(R25, 4)
+
     return rep.finish(
         "Static necessary-condition check of the hand-over stages only: the streaming loop threads the returned offset into the next find and "
         "sends each found message once; the sysline printers traverse lines and parts with plain forward slice iterators; the final newline is "
